@@ -27,7 +27,9 @@ REQUIRED = ["documents_with_internal_entities", "documents_after_the_rest_of_the
 EXHAUSTIVE = {"quick": False, "thorough": False}
 
 PROTECTED = ("markup", "literalLayout", "objectName", "attributeName", "para")
-OTHER = ("dataset", "title", "section", "entityName", "value", "description", "emphasis", "x")
+# (ordinary names, among them names that are a beginning or an extension of a protected name: "attribute" is an EML element)
+OTHER = ("dataset", "title", "section", "entityName", "value", "description", "emphasis", "x", "attribute", "attributeList", "object", "literal",
+         "mark", "par", "paragraph", "markups", "objectNames", "p", "a")
 XSI = "http://www.w3.org/2001/XMLSchema-instance"
 STR_ALPH = ["a", "b", "Z", "0", " ", " ", " ", "\t", "\n", "\xa0", "\xa0", " ", " ", "\x85", "​", "é", "\U0001F600", ".", "<", "&", "e\u0301", "\u212b"]
 XML_WS = " \t\r\n"
